@@ -251,7 +251,7 @@ def job_random(args):
         obs = gen_track(rnd, edges, rnd.randrange(1, 8), odd=style < 0.45)
         res = rnd.choice(RES)
         margin = rnd.choice([0.05, 0.15, 0.5])
-        out.append(run_case(edges, res, margin, obs, rnd.choice(RADII), rnd.choice([1, 50]), scale=(1 / 32.0 if rnd.random() < 0.3 else 1)))
+        out.append(run_case(edges, res, margin, obs, rnd.choice(RADII), rnd.choice([1, 50]), scale=rnd.choice([1, 1, 1, 1 / 32.0, 1 / 32.0, 0.1])))
     return out + [{"ev": "pq", "hist": h} for h in _PQ[:40]]
 
 
